@@ -251,7 +251,7 @@ fn c10(tier: Tier, seed: u64) -> i32 {
     ctx.run_batch("pause_resume", "as above with pause/resume-focused scripts", n2, |rs, _| {
         gen_sched(rs, &GenOpts { prop: "C10", style: ScriptStyle::PauseFocused, tier, allow_abort: false, natural_divergences: true })
     });
-    let n3 = ctx.n(24, 1200);
+    let n3 = ctx.n(48, 1200);
     ctx.run_batch("wide_model", "as above for models with 2^16..2^18 unconstrained parameters (few chains, few draws, depth <= 2): work that the math back-end only splits up for large vectors must not make a chain depend on the number of cores, on the other chains or on the schedule", n3, |rs, i| {
         let mut sc = gen_sched(rs, &GenOpts { prop: "C10", style: ScriptStyle::Mixed, tier, allow_abort: false, natural_divergences: false });
         let mut r = Prng::sub(rs, "wide");
@@ -626,7 +626,7 @@ fn c03(tier: Tier, seed: u64) -> i32 {
 
 fn c05(tier: Tier, seed: u64) -> i32 {
     let mut ctx = Ctx::new("C05", tier, seed);
-    let n = ctx.n(64, 6000);
+    let n = ctx.n(64, 1500);
     let opts = SwarmOpts { allow_tune0: false, max_tune: 12, max_draws: 6, max_dim: 4, allow_hard_targets: false, ..Default::default() };
     ctx.run_batch("enumerate_positions", "per base run (all six presets, num_tune<=12, num_draws<=6, dimension<=4): EVERY density evaluation index (all if <=500, else all of set_position + even stride) x EVERY fault kind (recoverable/unrecoverable error, NaN/+inf/-inf value, NaN/inf gradient component, energy jump) is injected in turn, plus 40 seeded fault pairs (second fault 1..20 evaluations later); phase labels (set_position / trajectory leapfrog / search base / search trial) come from a fault-free dry run of the same seed; non-trivial = a fault fired", n, |rs, _| {
         let mut cfg = gen_chain_cfg(rs, &opts);
